@@ -27,6 +27,18 @@ Theorem C05_sound : forall doc,
 Proof. exact sound_all. Qed.
 Print Assumptions C05_sound.
 
+(** exactness: on well-formed documents (unique type and directive names, no application naming an argument twice
+    or written with empty parentheses) the checker is silent exactly when the document respects every rule in the
+    implementation's reading and its additional arguments are nullable *)
+Theorem C05_exact : forall doc, wf_doc doc = true ->
+  (check_doc doc = [] <-> (forall r, rule_ok_impl r doc = true) /\ ok_extra_args_nullable doc = true).
+Proof.
+  intros doc Hwf. unfold wf_doc in Hwf. rewrite !andb_true_iff in Hwf. destruct Hwf as [[Hu Hau] Hne]. split.
+  - intros H. split; [apply sound_all; assumption | apply sound_extra_args_nullable; assumption].
+  - intros [HR HK]. apply (complete_gen false); assumption.
+Qed.
+Print Assumptions C05_exact.
+
 (** the rules that need no premise about the rest of the document *)
 Theorem C05_sound_local : forall doc,
   check_doc doc = [] ->
